@@ -168,7 +168,9 @@ pub fn case(r: &R, script: &[u64]) -> Result<(), String> {
     }
     match quiet_catch(AssertUnwindSafe(move || {
         let (t, _) = narsese::verif_hooks::with_seed_script(&script, || r2.build());
-        check_term(&r2, &t)
+        check_term(&r2, &t)?;
+        // the same on a clone (containers reallocated at exactly their length)
+        check_term(&r2, &t.clone()).map_err(|e| format!("on a clone of the term: {e}"))
     })) {
         Ok(x) => x,
         Err(p) => Err(format!("panic: {p}")),
